@@ -201,6 +201,20 @@ Section RunCases.
     | CV c => List.length (b_results (vc_base c))
     | CM c => List.length (b_results (mc_base c))
     end.
+  Definition chk_plains (c : anychk) : list (plainres K) :=
+    match c with
+    | CP c => b_results c
+    | CV c => map (fun r => v_plain r) (b_results (vc_base c))
+    | CM c => map (fun r => m_plain r) (b_results (mc_base c))
+    end.
+  (* hep::accumulate<Accumulator> and chi_square_dof<Accumulator> over the results of a checkpoint *)
+  Definition e_combine (wwv : bool) (c : anychk) : sx :=
+    let acc := if wwv then @weighted_with_variance K else @weighted_equally K in
+    let rs := chk_plains c in
+    match accumulate_plain acc rs with
+    | Ok r => SL [SY "combine"; SL (SY "ok" :: e_plain r ++ [eF F (chi_square_dof acc (map p_main rs))])]
+    | UB _ => SL [SY "combine"; SL [SY "ub"]]
+    end.
   Definition chk_mains (c : anychk) : list (mcres K) :=
     match c with
     | CP c => map p_main (b_results c)
@@ -342,6 +356,9 @@ Section RunCases.
             end
           | _, _ => [bad]
           end
+        else [bad]
+      | SL [SY o; SY which] =>
+        if String.eqb o "combine" then e_combine (String.eqb which "wwv") c :: do_ops rs ops' c idx
         else [bad]
       | SL [SY o; SN k] =>
         if String.eqb o "rollback" then
